@@ -78,6 +78,10 @@ type Engine struct {
 	assumes   []string
 	depthNow  int
 	nPoison   int
+	tValues   time.Duration
+	nValues   int
+	logic     string
+	mergeStrict bool
 	ufLemmas  []*Term
 	feasSites map[string]int
 	scCache   map[*ssa.BasicBlock]bool
@@ -315,12 +319,31 @@ func (e *Engine) feasible(g, c *Term) bool {
 		e.feas[x.id] = true
 		return true
 	}
+	t0 := time.Now()
 	r := e.sol.Check(e.feasMs, x)
+	dCheck := time.Since(t0)
 	if r == "sat" && len(e.vars) > 0 {
-		m := NewModel(e.sol.Values(e.vars))
-		e.models = append(e.models, m)
-		if len(e.models) > 12 {
-			e.models = e.models[1:]
+		// reading a model costs a model construction over every defined term: only worth it when checks are
+		// expensive compared with it (a cached model saves later checks)
+		avgVal := time.Duration(0)
+		if e.nValues > 0 {
+			avgVal = e.tValues / time.Duration(e.nValues)
+		}
+		if e.nValues < 4 || dCheck*2 > avgVal || e.sol.nCheck%16 == 0 {
+			t1 := time.Now()
+			var vars []*Term
+			for _, v := range e.vars {
+				if v != nil {
+					vars = append(vars, v)
+				}
+			}
+			m := NewModel(e.sol.Values(vars))
+			e.tValues += time.Since(t1)
+			e.nValues++
+			e.models = append(e.models, m)
+			if len(e.models) > 40 {
+				e.models = e.models[1:]
+			}
 		}
 	}
 	e.sol.Pop()
@@ -524,7 +547,10 @@ func (e *Engine) mergePaths(grp []*Path) []*Path {
 }
 
 func (e *Engine) tryMerge2(a, b *Path) (res *Path) {
+	saved := e.mergeStrict
+	e.mergeStrict = true
 	defer func() {
+		e.mergeStrict = saved
 		if r := recover(); r != nil {
 			if u, ok := r.(unsupported); ok && (strings.HasPrefix(u.msg, "merging ")) {
 				res = nil
@@ -571,7 +597,10 @@ func (e *Engine) mergeResults(rs []Result) []Result {
 }
 
 func (e *Engine) tryMergeRes(a, b Result) (res Result, ok bool) {
+	saved := e.mergeStrict
+	e.mergeStrict = true
 	defer func() {
+		e.mergeStrict = saved
 		if r := recover(); r != nil {
 			if u, isU := r.(unsupported); isU && strings.HasPrefix(u.msg, "merging ") {
 				ok = false
